@@ -282,11 +282,16 @@ def run_property(prop, tier, jobs=None, only=None):
     known_hits = []
     harness_errors = []
     replay_cache = {}
+    per_ob = {}
     for o in obs:
         r = results[o.name]
         for fl in r["failed"]:
             rp = fl.get("replay")
             ck = (o.name, json.dumps(rp, sort_keys=True))
+            per_ob[o.name] = per_ob.get(o.name, 0) + 1
+            if per_ob[o.name] > 2 and ck not in replay_cache:
+                fl["replay_skipped"] = "more than 2 counterexamples in this obligation; first two replayed"
+                continue
             if ck in replay_cache:
                 replay_cache[ck]["also"] = replay_cache[ck].get("also", 0) + 1
                 continue
